@@ -28,6 +28,9 @@ type Ctx = hctx.Ctx
 var props = map[string]func(*Ctx){"C15": c15.Run, "C16": c16.Run, "C19": c19.Run}
 
 func main() {
+	// Deployments do not run in UTC: give the process a local zone with an offset, so that code which forgets .UTC()
+	// shows (Kerberos times are UTC on the wire and in every comparison).
+	time.Local = time.FixedZone("VERIF", 5*3600+1800)
 	prop := flag.String("prop", "", "property id")
 	tier := flag.String("tier", "quick", "quick|thorough")
 	seed := flag.Int64("seed", 1, "PRNG seed")
